@@ -997,6 +997,7 @@ func (x *Exec) sinkGuards(st *State, name string, args []*Val) {
 			continue
 		}
 		hit = true
+		x.sinkHit[cl.ID] = true
 		t := x.evalClause(st, st.frames[0], con, cl, nil)
 		x.check(st, t, "guard", cl.ID+"@"+name, "", "before calling "+name+": "+cl.Text)
 	}
